@@ -34,9 +34,7 @@ use crate::cert::CertRef;
 #[cfg(feature = "case-resumption")]
 use crate::crypto::{CanonAeadKey, AEAD_TAG_LEN};
 use crate::crypto::{CanonPkcSignature, CanonPkcSignatureRef, Crypto, Hash, AEAD_CANON_KEY_LEN};
-use crate::error::Error;
-#[cfg(feature = "case-resumption")]
-use crate::error::ErrorCode;
+use crate::error::{Error, ErrorCode};
 use crate::sc::{
     check_opcode, complete_with_status, expect_opcode, sc_write, OpCode, SCStatusCodes,
     SessionParameters,
@@ -114,7 +112,20 @@ impl<'a, C: Crypto> CaseResponder<'a, C> {
     /// Consumes the exchange: on return the CASE handshake has either
     /// completed, been rejected, or aborted, and the exchange is dropped.
     pub async fn handle(&mut self, mut exchange: Exchange<'_>) -> Result<(), Error> {
-        let mut session = ReservedSession::reserve(exchange.matter(), self.crypto).await?;
+        let mut session = match ReservedSession::reserve(exchange.matter(), self.crypto).await {
+            Ok(session) => session,
+            Err(e) if matches!(e.code(), ErrorCode::NoSpaceSessions) => {
+                // The session table is full and nothing can be evicted: tell the initiator
+                // to come back later rather than leaving it to time out.
+                return complete_with_status(
+                    &mut exchange,
+                    SCStatusCodes::Busy,
+                    &500u16.to_le_bytes(),
+                )
+                .await;
+            }
+            Err(e) => return Err(e),
+        };
 
         // Attempt session resumption first. If the peer's Sigma1 carries
         // both `resumptionID` and `initiatorResumeMIC`, we have a cached
